@@ -27,7 +27,7 @@ def scan_runs(ctx, n):
         d = ctx.sub(f'scan-{i}')
         out = os.path.join(d, 'trace.ndjson')
         args = [ctx.kvh(), 'scan-concurrent', '-dir', os.path.join(d, 'db'), '-out', out, '-seed', str(ctx.seed * 1000 + i),
-                '-n', str(10 + i % 8), '-mem', str([150, 400, 1 << 20][i % 3])] + (['-range'] if i % 2 else []) + (['-seeks'] if (i // 2) % 2 else [])
+                '-n', str(10 + i % 8), '-mem', str([150, 400, 1 << 20][i % 3])] + (['-range'] if i % 2 else []) + (['-seeks'] if (i // 2) % 2 else []) + (['-memonly'] if i % 3 == 2 and (i // 2) % 2 else [])
         p = subprocess.run(args, capture_output=True, text=True, timeout=120)
         ev = read_ndjson(out) if os.path.exists(out) else [{'e': 'reset', 'n': 0, 'stable': []}]
         if p.returncode != 0:
